@@ -132,11 +132,11 @@ Fixpoint sent_of (o : list dout) : list (N * N) :=
   | _ :: r => sent_of r
   end.
 
-Record mrun := { m_st : dstate; m_sent : list (N * N); m_out : list dout }.
+Record mrun := { m_st : dstate; m_sent : list (N * N); m_out : list dout; m_stale : bool }.
 
 Definition m_ev (m : mrun) (e : dev) : mrun :=
   let '(s1, o1) := demux_step (m_st m) e in
-  {| m_st := s1; m_sent := sent_of o1 ++ m_sent m; m_out := m_out m ++ o1 |}.
+  {| m_st := s1; m_sent := sent_of o1 ++ m_sent m; m_out := m_out m ++ o1; m_stale := m_stale m |}.
 
 Fixpoint m_submits (m : mrun) (next : N) (ids : list N) : mrun :=
   match ids with
@@ -148,7 +148,12 @@ Fixpoint m_replies (m : mrun) (reps : list N) : mrun :=
   | [] => m
   | g :: r =>
     match map_find g (m_sent m) with
-    | Some wire => m_replies (m_ev m (Arrive wire)) r
+    | Some wire =>
+      (* known-finding class 1: the upstream repeats a reply whose waiter is gone, after the
+         wire id has been taken by a query that is now in flight *)
+      let hit := d_conn (m_st m) && negb (pending g (d_map (m_st m))) && map_mem wire (d_map (m_st m)) in
+      let m1 := m_ev m (Arrive wire) in
+      m_replies {| m_st := m_st m1; m_sent := m_sent m1; m_out := m_out m1; m_stale := m_stale m1 || hit |} r
     | None => m_replies m r
     end
   end.
@@ -170,8 +175,10 @@ Definition code_of_dres (id : N) (l : list dres) : N :=
   | [RErrSend] => 5
   | _ => 6
   end.
+Definition m_start : mrun := {| m_st := d_init; m_sent := []; m_out := []; m_stale := false |}.
+Definition stale_reuse (ps : list phase) : bool := m_stale (m_phases m_start 0 ps).
 Definition model_codes (ps : list phase) (nw : nat) : list N :=
-  let m := m_phases {| m_st := d_init; m_sent := []; m_out := [] |} 0 ps in
+  let m := m_phases m_start 0 ps in
   let ids := flat_map p_ids ps in
   map (fun g => code_of_dres (nth (N.to_nat g) ids 0) (deliveries g (m_out m))) (seqN 0 nw).
 
@@ -184,7 +191,7 @@ Definition check_demux (ts : list N) : list N :=
       | Some (impl, []) =>
         let nw := length (flat_map p_ids ps) in
         if negb (lenN impl =? N.of_nat nw) then v_bad
-        else if negb (toks_eqb impl (spec_codes ps nw)) then v_viol 2
+        else if negb (toks_eqb impl (spec_codes ps nw)) then (if stale_reuse ps then v_known 1 else v_viol 2)
         else if negb (toks_eqb impl (model_codes ps nw)) then v_diff (model_codes ps nw)
         else v_ok (if phases_collide ps 0 [] then 3 else 2)
       | _ => v_bad
